@@ -53,6 +53,9 @@ class Gen:
             step = Fraction(1, G)
             return show(r.choice([lo, hi, lo - step, hi + step, lo + step, hi - step, Fraction(int((lo + hi) / 2 * G), G)]))
         if self.offgrid:
+            if r.random() < 0.06:
+                # magnitudes around and below the last printed decimal (micro nudges: 5e-05, 1.2e-07 ...)
+                return show(Fraction(r.choice([1, -1]) * r.randint(1, 99) * 10.0 ** -r.randint(5, 9)))
             return show(Fraction(r.choice([r.uniform(-self.span, self.span), r.randint(-9, 9) / 3, r.randint(-50, 50) / 10])))
         return show(Fraction(r.randint(-self.span * G, self.span * G), G))
 
@@ -240,6 +243,32 @@ class Gen:
 
     def history(self, n: int) -> list[str]:
         return [self.op() for _ in range(n)]
+
+    def creep(self) -> list[str]:
+        """a box whose upper (or lower) limit is a decimal the binary sum of equal relative steps overshoots by an ulp
+        (0.1 + 0.1 + 0.1 > 0.3): the last step lands a rounding error outside the limit - and carries new F / S words, so
+        that a check that judges the target differently at two sites shows up as a partial effect"""
+        r = self.rng
+        k = r.choice([3, 6, 7, 9, 12])                   # k * 0.1 as a float sum differs from the decimal k/10 for these
+        step = r.choice([0.1, 0.7, 0.3])
+        limit = round(k * step, 10)
+        axis = r.choice("xyz")
+        sign = r.choice([1, -1])
+        lo = [-50.0, -50.0, -50.0]
+        hi = [50.0, 50.0, 50.0]
+        (hi if sign > 0 else lo)["xyz".index(axis)] = sign * limit
+        h = ["boundsaxes " + " ".join(show(Fraction(v)) for v in lo + hi), "setaxis x=0 y=0 z=0", "feed 100", "dist rel"]
+        if r.random() < 0.5:
+            h.insert(3, "power 10")
+        for i in range(k + 1):
+            words = ""
+            if i >= k - 1 or r.random() < 0.3:
+                words = f" F:{show(Fraction(200 + i))}" + (f" S:{show(Fraction(20 + i))}" if r.random() < 0.6 else "")
+            op = r.choice(["move", "move", "rapid", "probe towards"] if i >= k - 1 else ["move", "rapid"])
+            h.append(f"{op} {axis}={show(Fraction(sign * step))}{words}")
+        if r.random() < 0.5:
+            h += ["moveabs " + f"{axis}={show(Fraction(sign * limit))}" + " F:333", f"move {axis}={show(Fraction(-sign * step))}"]
+        return h
 
 
 # ------------------------------------------------------------------ correspondence
